@@ -9,13 +9,13 @@ pid = sys.argv[1]
 k, n = (int(x) for x in (sys.argv[2] if len(sys.argv) > 2 else '0/16').split('/'))
 mod = importlib.import_module('checks.' + pid.lower())
 ctx = core.Ctx(pid, 'quick', int(os.environ.get('VERIF_SEED', '0')), k, n)
-ctx.MAX_VIOL = 100000
+ctx.MAX_PER_GROUP = 100000; ctx.MAX_GROUPS = 100000
 mod.run_worker(ctx)
 g = collections.defaultdict(list)
 for v in ctx.violations:
     det = v['detail']
     prob = det.get('problems') or det.get('exc') or det.get('error') or det.get('diff')
-    key = (v['oracle'], str(det.get('op'))[:50] if v['oracle'] != 'structure' else '', str(prob)[:int(os.environ.get('W', '160'))])
+    key = (v['oracle'], str(det.get('op'))[:50] if v['oracle'] != 'structure' else '', str(prob or det.get('what') or det.get('used_but_not_declared'))[:int(os.environ.get('W', '160'))])
     if v['case'].get('kind') == 'battery':
         key = (v['oracle'], v['case']['mutator'], str(det.get('what')) + ' ' + str(det.get('exception', ''))[:40])
     g[key].append(v)
